@@ -355,6 +355,7 @@ class C15(F.Check):
             if res.executions % 499 == 3 and len(res.samples) < 2:
                 res.samples.append({'params': [cfg['p'], cfg['r'], cfg['t'], cfg['c']], 'trace': model.trace[:16]})
         ex = explore.Explorer(lambda c, e: self.one_run(cfg, c, e), check, dev_kinds=('app',), max_dev=1, cache=True, max_runs=400000)
+        ex.stop_when = lambda: res.counters['violating_cases'] >= 300
         ex.run()
         if ex.capped:
             res.caps.append('explorer run cap reached')
